@@ -123,7 +123,8 @@ fn normalize_basic_value_for_boundaries(
     must_be_finite: bool,
 ) -> TokenStream {
     // Adding a boundary to a finite basic value can overflow to infinity
-    // (e.g. `f64::MAX + 1e300`), which `finite` does not allow.
+    // (e.g. `f64::MAX + 1e300`), and so can the correction for an exclusive boundary
+    // next to `MAX` / `MIN` or a boundary that is itself infinite, which `finite` does not allow.
     let (keep_finite_upwards, keep_finite_downwards) = if must_be_finite {
         (
             quote!(let x = x.min(#inner_type::MAX);),
@@ -161,6 +162,8 @@ fn normalize_basic_value_for_boundaries(
                 // Make sure we satisfy the exclusive boundaries
                 let x = #adjust_x_lower;
                 let x = #adjust_x_upper;
+                #keep_finite_upwards
+                #keep_finite_downwards
                 x
             }
         }
@@ -172,8 +175,9 @@ fn normalize_basic_value_for_boundaries(
                 let basic_value = #basic_value;
                 let positive_basic_value = basic_value.abs();
                 let x = positive_basic_value + #lower_value;
+                let x = #adjust_x;
                 #keep_finite_upwards
-                #adjust_x
+                x
             }
         }
         (None, Some(upper)) => {
@@ -184,8 +188,9 @@ fn normalize_basic_value_for_boundaries(
                 let basic_value = #basic_value;
                 let negative_basic_value = -basic_value.abs();
                 let x = negative_basic_value + #upper_value;
+                let x = #adjust_x;
                 #keep_finite_downwards
-                #adjust_x
+                x
             }
         }
         (None, None) => basic_value,
